@@ -39,7 +39,15 @@ def strategy(tier):
             opts["source"] = draw(st.sampled_from(["src", "S P", "é"]))
         if draw(st.booleans()):
             opts["comment"] = draw(st.sampled_from(["c", "a comment", "ü"]))
-        return {"tree": t, "P": P, "opts": opts, "assembler_route": draw(st.sampled_from(["lib", "cli"]))}
+        t = dict(t)
+        if not t["single"] and draw(st.sampled_from([True] + [False] * 5)):
+            # a symbolic link to a sibling directory: every creator follows it, so all of them must list its files twice
+            dirs = sorted({f["path"][0] for f in t["files"] if len(f["path"]) > 1})
+            if dirs:
+                d = draw(st.sampled_from(dirs))
+                t["dirlinks"] = [{"path": [draw(st.sampled_from(["current", "zz-link", "0link"]))], "target": d}]
+        return {"tree": t, "P": P, "opts": opts, "assembler_route": draw(st.sampled_from(["lib", "cli"])),
+                "again": draw(common.second_act())}
     return case()
 
 
@@ -80,6 +88,70 @@ def _interactive_create(root, out, P, ver, opts):
         builtins.input = real_input
 
 
+def _round(scr, root, tree, P, case, classes, tag):
+    """All creators and hashers on the current on-disk state; returns an Outcome on disagreement, else None."""
+    metas = {}
+    try:
+        for creator in common.V2_CREATORS:
+            out = os.path.join(scr, "out", tag + creator + ".torrent")
+            if creator.startswith("Assembler") and case["assembler_route"] == "cli" and not any(
+                    n.startswith("-") for n in [tree["name"]]):
+                extra = []
+                if case["opts"].get("private"):
+                    extra.append("--private")
+                if "source" in case["opts"]:
+                    extra += ["--source", case["opts"]["source"]]
+                if "comment" in case["opts"]:
+                    extra += ["--comment", case["opts"]["comment"]]
+                metas[creator] = common.create(creator, "cli", root, out, P, extra_cli=extra)
+            else:
+                metas[creator] = common.create(creator, "lib", root, out, P, extra_kw=case["opts"])
+    except Exception as e:
+        return Outcome(Violation("C10:exception:%s" % type(e).__name__, "create raised %r" % (e,)), True)
+    # the interactive front end (prompts answered by the harness) must produce the same metafile as the CLI creator
+    try:
+        for ver, key in (("2", "Interactive2"), ("3", "Interactive3")):
+            out = os.path.join(scr, "out", tag + key + ".torrent")
+            _interactive_create(root, out, P, ver, case["opts"])
+            metas[key] = vmeta.Meta.from_file(out)
+    except Exception as e:
+        return Outcome(Violation("C10:interactive-exception:%s" % type(e).__name__, "interactive create raised %r" % (e,)), True)
+    for a, b, tag in (("Assembler2", "TorrentFileV2", "v2"), ("Assembler3", "TorrentFileHybrid", "hybrid"),
+                      ("Assembler2", "Interactive2", "v2-interactive"), ("Assembler3", "Interactive3", "hybrid-interactive")):
+        ma, mb = metas[a], metas[b]
+        if ma.info != mb.info:
+            diff = sorted(k.decode() for k in set(ma.info) | set(mb.info) if ma.info.get(k) != mb.info.get(k))
+            return Outcome(Violation("C10:%s:info:%s" % (tag, ",".join(diff)[:60]),
+                                     "%s and %s disagree on info keys %r" % (a, b, diff)), True)
+        if ma.top.get(b"piece layers") != mb.top.get(b"piece layers"):
+            return Outcome(Violation("C10:%s:piece-layers" % tag, "%s and %s disagree on piece layers" % (a, b)), True)
+    spec = common.by_path(tree)
+    for key, f in spec.items():
+        classes.update(common.v2_file_classes(f["size"], P))
+        if f["size"] == 0:
+            continue
+        path = root if tree["single"] else os.path.join(root, *f["path"])
+        try:
+            hs = _hash_file(path, P)
+        except Exception as e:
+            return Outcome(Violation("C10:hasher-exception:%s" % type(e).__name__, "hasher raised %r on size %d P %d" % (
+                e, f["size"], P)), True, classes)
+        base = hs["HasherV2"]
+        for name, val in hs.items():
+            if (val[0], val[1]) != (base[0], base[1]):
+                which = "root" if val[0] != base[0] else "piece-layer"
+                return Outcome(Violation("C10:hashers:%s:%s" % (which, name), "%s disagrees with HasherV2 on %s (size %d, P %d)" % (
+                    name, which, f["size"], P)), True, classes)
+        hb, fh = hs["HasherHybrid"], hs["FileHasher-hybrid"]
+        if hb[2] != fh[2]:
+            return Outcome(Violation("C10:hashers:v1-pieces", "HasherHybrid and FileHasher disagree on v1 pieces (size %d, P %d)" % (
+                f["size"], P)), True, classes)
+        if hb[3] != fh[3]:
+            return Outcome(Violation("C10:hashers:padding", "HasherHybrid and FileHasher disagree on padding_file: %r vs %r" % (
+                hb[3], fh[3])), True, classes)
+    return None
+
+
 def run_case(case):
     tree = case["tree"]
     P = case["P"]
@@ -87,64 +159,19 @@ def run_case(case):
     classes = set()
     with sandbox.Scratch("c10") as scr:
         root = common.make(scr, tree)
-        metas = {}
-        try:
-            for creator in common.V2_CREATORS:
-                out = os.path.join(scr, "out", creator + ".torrent")
-                if creator.startswith("Assembler") and case["assembler_route"] == "cli" and not any(
-                        n.startswith("-") for n in [tree["name"]]):
-                    extra = []
-                    if case["opts"].get("private"):
-                        extra.append("--private")
-                    if "source" in case["opts"]:
-                        extra += ["--source", case["opts"]["source"]]
-                    if "comment" in case["opts"]:
-                        extra += ["--comment", case["opts"]["comment"]]
-                    metas[creator] = common.create(creator, "cli", root, out, P, extra_cli=extra)
-                else:
-                    metas[creator] = common.create(creator, "lib", root, out, P, extra_kw=case["opts"])
-        except Exception as e:
-            return Outcome(Violation("C10:exception:%s" % type(e).__name__, "create raised %r" % (e,)), True)
-        # the interactive front end (prompts answered by the harness) must produce the same metafile as the CLI creator
-        try:
-            for ver, key in (("2", "Interactive2"), ("3", "Interactive3")):
-                out = os.path.join(scr, "out", key + ".torrent")
-                _interactive_create(root, out, P, ver, case["opts"])
-                metas[key] = vmeta.Meta.from_file(out)
-        except Exception as e:
-            return Outcome(Violation("C10:interactive-exception:%s" % type(e).__name__, "interactive create raised %r" % (e,)), True)
-        for a, b, tag in (("Assembler2", "TorrentFileV2", "v2"), ("Assembler3", "TorrentFileHybrid", "hybrid"),
-                          ("Assembler2", "Interactive2", "v2-interactive"), ("Assembler3", "Interactive3", "hybrid-interactive")):
-            ma, mb = metas[a], metas[b]
-            if ma.info != mb.info:
-                diff = sorted(k.decode() for k in set(ma.info) | set(mb.info) if ma.info.get(k) != mb.info.get(k))
-                return Outcome(Violation("C10:%s:info:%s" % (tag, ",".join(diff)[:60]),
-                                         "%s and %s disagree on info keys %r" % (a, b, diff)), True)
-            if ma.top.get(b"piece layers") != mb.top.get(b"piece layers"):
-                return Outcome(Violation("C10:%s:piece-layers" % tag, "%s and %s disagree on piece layers" % (a, b)), True)
-        spec = common.by_path(tree)
-        for key, f in spec.items():
-            classes.update(common.v2_file_classes(f["size"], P))
-            if f["size"] == 0:
-                continue
-            path = root if tree["single"] else os.path.join(root, *f["path"])
-            try:
-                hs = _hash_file(path, P)
-            except Exception as e:
-                return Outcome(Violation("C10:hasher-exception:%s" % type(e).__name__, "hasher raised %r on size %d P %d" % (
-                    e, f["size"], P)), True, classes)
-            base = hs["HasherV2"]
-            for name, val in hs.items():
-                if (val[0], val[1]) != (base[0], base[1]):
-                    which = "root" if val[0] != base[0] else "piece-layer"
-                    return Outcome(Violation("C10:hashers:%s:%s" % (which, name), "%s disagrees with HasherV2 on %s (size %d, P %d)" % (
-                        name, which, f["size"], P)), True, classes)
-            hb, fh = hs["HasherHybrid"], hs["FileHasher-hybrid"]
-            if hb[2] != fh[2]:
-                return Outcome(Violation("C10:hashers:v1-pieces", "HasherHybrid and FileHasher disagree on v1 pieces (size %d, P %d)" % (
-                    f["size"], P)), True, classes)
-            if hb[3] != fh[3]:
-                return Outcome(Violation("C10:hashers:padding", "HasherHybrid and FileHasher disagree on padding_file: %r vs %r" % (
-                    hb[3], fh[3])), True, classes)
+        for tag in ("", "again-"):
+            bad = _round(scr, root, tree, P, case, classes, tag)
+            if bad is not None:
+                if tag:
+                    v = bad.violation
+                    return Outcome(Violation("C10:again:" + v.sig.split(":", 1)[1], "after rewriting one file in place, in the same process: " + v.msg), True, sorted(classes))
+                return bad
+            if tag or not case.get("again"):
+                break
+            tree2 = common.apply_second_act(tree, root, case["again"])
+            if tree2 is None:
+                break
+            tree = tree2
+            classes.add("second-act")
     nontrivial = bool(classes & {"short-last-block", "short-last-piece", "piece-count-not-pow2", "size==P"})
     return Outcome(None, nontrivial, sorted(classes))
